@@ -81,13 +81,48 @@ class Prov:
                 self.defs.setdefault(l, []).append((bi, "term", "call", t))
             elif t["k"] == "yield":
                 pass
+        # effects through `&mut`: a call that receives `&mut L` (possibly re-borrowed) may change L,
+        # so it counts as one more definition of L (origin = that call; look through its arguments)
+        self.mut_base = {}
+        changed = True
+        while changed:
+            changed = False
+            for bi, b in enumerate(fn.blocks):
+                if b["cleanup"]:
+                    continue
+                for s in b["s"]:
+                    if s["k"] == "assign" and len(s["lhs"]) == 1:
+                        rv = s["rv"]
+                        tgt = None
+                        if rv["k"] == "ref" and rv["mut"]:
+                            pl = rv["place"]
+                            if len(pl) == 1 or all(e != "*" for e in pl[1:]):
+                                tgt = pl[0]
+                            elif pl[0] in self.mut_base:
+                                tgt = self.mut_base[pl[0]]
+                        elif rv["k"] == "use":
+                            pl = rv["op"].get("m") or rv["op"].get("c")
+                            if pl and len(pl) == 1 and pl[0] in self.mut_base:
+                                tgt = self.mut_base[pl[0]]
+                        if tgt is not None and self.mut_base.get(s["lhs"][0]) != tgt:
+                            self.mut_base[s["lhs"][0]] = tgt
+                            changed = True
+        for bi, b in enumerate(fn.blocks):
+            if b["cleanup"]:
+                continue
+            t = b["t"]
+            if t["k"] == "call":
+                for a in t["args"]:
+                    pl = a.get("m") or a.get("c")
+                    if pl and len(pl) == 1 and pl[0] in self.mut_base:
+                        self.defs.setdefault(self.mut_base[pl[0]], []).append((bi, "term", "mutcall", t))
         self._memo = {}
 
     def single_def(self, local):
         d = self.defs.get(local, [])
         if local <= self.fn["argc"] and local >= 1:
             return len(d) == 0
-        return len(d) == 1
+        return len([x for x in d if x[2] != "mutcall"]) == 1 and not any(x[2] == "mutcall" for x in d)
 
     # ---------------------------------------------------------------------------------------
     def trace_operand(self, op, depth=0):
@@ -181,6 +216,8 @@ class Prov:
                 else:
                     path = tuple(e[1] for e in lhs[1:] if e != "*" and e[0] == "f")
                     out.add(("partial", path, frozenset(o)) if path else ("unknown", "call-into-proj"))
+            elif kind == "mutcall":
+                out.add(("call", bi, x["f"].get("def"), x["f"].get("inst")))
             elif kind == "setdiscr":
                 pass
         if not out:
